@@ -62,32 +62,30 @@ static size_t value_alphabet(size_t w, uint64_t *vals) {
 static char desc[256];
 
 /* ---------------------------------------------------------------- far offsets
- * The offset argument is a size_t: a stream may be longer than 2^31, 2^32 ... bits.  The stream is a lazily committed
- * (MAP_NORESERVE) mapping of 4 GiB; before each call NO page of it is resident except the pages of the window around
- * the addressed words, so after the call (a) the window must equal the model, written and read independently of the
- * library, and (b) mincore() must show that no other page of the whole stream was accessed (read or written). */
-#define FAR_MAP ((size_t)4 << 30) + (1 << 16)
+ * The offset argument is a size_t: a stream may be longer than 2^31, 2^32 ... bits, its word index larger than 2^32.
+ * The stream is a PROT_NONE reservation of 2^42 bits (512 GiB of address space, nothing committed); for each call
+ * only the pages of the window around the addressed words are made accessible, so (a) the window must equal the
+ * model, written and read independently of the library, and (b) ANY access - read or write - to another word of the
+ * whole stream faults and is reported with its position. */
+#define FAR_MAP ((((size_t)1 << 42) / 8) + (1 << 16))
 static void far_section(void) {
     if (!vh_section_begin("far-offsets")) {
         return;
     }
     size_t maplen = FAR_MAP;
-    uint8_t *map = mmap(NULL, maplen, PROT_READ | PROT_WRITE, MAP_PRIVATE | MAP_ANONYMOUS | MAP_NORESERVE, -1, 0);
+    uint8_t *map = mmap(NULL, maplen, PROT_NONE, MAP_PRIVATE | MAP_ANONYMOUS | MAP_NORESERVE, -1, 0);
     if (map == MAP_FAILED) {
         vh_flag("far_offsets_mapped", 0);
         return;
     }
     vh_flag("far_offsets_mapped", 1);
-    madvise(map, maplen, MADV_NOHUGEPAGE);
-    size_t npages = maplen / 4096;
-    unsigned char *vec = malloc(npages);
-    static const int EXPS[5] = {31, 32, 33, 34, 35};
+    static const int EXPS[11] = {31, 32, 33, 34, 35, 36, 37, 38, 39, 40, 42};
     static const long DELTAS[12] = {-129, -65, -64, -33, -1, 0, 1, 31, 37, 63, 64, 4096 * 8 + 5};
     static const size_t WIDTHS[10] = {1, 7, 8, 16, 31, 32, 33, 40, 63, 64};
     for (int ii = 0; ii < 2; ii++) {
         const binst *I = &INST[ii];
         size_t W = (size_t)I->W, WB = W / 8;
-        for (int ei = 0; ei < 5; ei++) {
+        for (int ei = 0; ei < 11; ei++) {
             for (int di = 0; di < 12; di++) {
                 for (int wi = 0; wi < 10; wi++) {
                     size_t w = WIDTHS[wi];
@@ -98,9 +96,17 @@ static void far_section(void) {
                         continue;
                     }
                     size_t off = ((size_t)1 << EXPS[ei]) + (size_t)DELTAS[di];
+                    if (EXPS[ei] == 42 && DELTAS[di] > 0) {
+                        off = ((size_t)1 << 42) - (size_t)DELTAS[di] - 64; /* stay inside the reservation */
+                    }
                     size_t firstw = off / W, lastw = (off + w - 1) / W;
                     size_t wlo = (firstw - 1) * WB, whi = (lastw + 2) * WB; /* window: one pad word each side */
                     if (whi > maplen) {
+                        continue;
+                    }
+                    size_t plo = wlo & ~(size_t)4095, phi = (whi + 4095) & ~(size_t)4095;
+                    if (mprotect(map + plo, phi - plo, PROT_READ | PROT_WRITE) != 0) {
+                        vh_flag("far_offsets_mapped", 0);
                         continue;
                     }
                     uint64_t mask = w == 64 ? UINT64_MAX : ((1ULL << w) - 1);
@@ -128,7 +134,12 @@ static void far_section(void) {
                                     got = I->get(map, off, w);
                                     SB_LEAVE();
                                 } else {
-                                    vh_fail("bitstream.Set/Get", vh_fault_name(), "untagged", "%s: %s", desc, vh_fault_msg);
+                                    uint8_t *fa = (uint8_t *)vh_fault_addr;
+                                    if (fa >= map && fa < map + maplen) {
+                                        vh_fail("bitstream.Set/Get", "touches_foreign_word", "untagged", "%s: range lies in stream bytes %zu..%zu but stream byte %zu was accessed", desc, wlo + WB, whi - WB - 1, (size_t)(fa - map));
+                                    } else {
+                                        vh_fail("bitstream.Set/Get", vh_fault_name(), "untagged", "%s: %s", desc, vh_fault_msg);
+                                    }
                                 }
                                 vh_count("calls", mode ? 1 : 2);
                                 vh_count("cases", 1);
@@ -138,26 +149,13 @@ static void far_section(void) {
                                 if (got != v) {
                                     vh_fail("bitstream.Get", "wrong_value", "untagged", "%s: Get returned 0x%" PRIx64, desc, got);
                                 }
-                                /* which pages of the whole stream were accessed? */
-                                if (mincore(map, maplen, vec) == 0) {
-                                    size_t plo = wlo / 4096, phi = (whi - 1) / 4096;
-                                    for (size_t pg = 0; pg < npages; pg++) {
-                                        if (!(vec[pg] & 1)) {
-                                            continue;
-                                        }
-                                        if (pg < plo || pg > phi) {
-                                            vh_fail("bitstream.Set/Get", "touches_foreign_word", "untagged", "%s: range lies in stream bytes %zu..%zu but the page at stream byte %zu was accessed", desc, wlo + WB,
-                                                    whi - WB - 1, pg * 4096);
-                                        }
-                                        madvise(map + pg * 4096, 4096, MADV_DONTNEED);
-                                    }
-                                    vh_count("page_scans", 1);
-                                } else {
-                                    vh_flag("far_offsets_mapped", 0);
-                                }
                             }
                         }
                     }
+                    /* give the pages back and close the window again */
+                    madvise(map + plo, phi - plo, MADV_DONTNEED);
+                    mprotect(map + plo, phi - plo, PROT_NONE);
+                    vh_count("windows", 1);
                     char ck[64];
                     snprintf(ck, sizeof ck, "%s/far/2^%d/%s", I->name, EXPS[ei], firstw == lastw ? "one-word" : "two-words");
                     vh_class(ck, "offset 2^%d%+ld width %zu", EXPS[ei], DELTAS[di], w);
@@ -165,7 +163,6 @@ static void far_section(void) {
             }
         }
     }
-    free(vec);
     munmap(map, maplen);
 }
 
